@@ -313,6 +313,8 @@ def origins(fn, node, definite_out_calls=(), _seen=None, _depth=0):
             except AnalysisBroken:
                 return [('expr', s)]
             for (dn, kind, val) in rds:
+                if kind == 'init' and val is None:
+                    continue          # declaration without initialiser: no value of its own
                 if kind in ('init', 'assign') and val is not None:
                     out += rec(val)
                 elif kind in ('out', 'out!'):
